@@ -485,3 +485,93 @@ pub fn cmd_sink(a: &Args) {
                "files": files.iter().map(|p| p.to_string_lossy().to_string()).collect::<Vec<_>>()})
     );
 }
+
+// ------------------------------------------------------------------ C12: failing sinks
+
+fn try_write(k: usize, w: &dyn Fn(&mut UserSink) -> Result<(), String>) -> (String, usize, Vec<u8>) {
+    let mut u = UserSink::new(Some(k), false);
+    let r = catch_unwind(AssertUnwindSafe(|| w(&mut u)));
+    let outcome = match r {
+        Ok(Ok(())) => "ok".to_string(),
+        Ok(Err(e)) => e,
+        Err(_) => "panic".to_string(),
+    };
+    (outcome, u.bits.len(), u.bytes())
+}
+
+fn out_err<S: BitSink>(e: flacenc::error::OutputError<S>) -> String {
+    match e {
+        flacenc::error::OutputError::Sink(_) => "err:sink".to_string(),
+        flacenc::error::OutputError::Range(_) => "err:range".to_string(),
+        #[allow(unreachable_patterns)]
+        _ => "err:other".to_string(),
+    }
+}
+
+pub fn cmd_faulty(a: &Args) {
+    let thorough = a.get("tier", "quick") == "thorough";
+    let seed = a.num("seed", 1);
+    let out = PathBuf::from(a.get("out", "/verif/.work/faulty"));
+    let shards = a.num("shards", 12) as usize;
+    let mut sh = Shards::new(&out, "faulty");
+    let streams = component_streams(seed, if thorough { 60 } else { 10 });
+    let mut ncomp = 0usize;
+    let mut ntries = 0usize;
+    let mut outcomes = BTreeSet::new();
+    let mut classes = BTreeSet::new();
+    let mut samples = vec![];
+    for (ci, (what, s)) in streams.iter().enumerate() {
+        type W<'a> = Box<dyn Fn(&mut UserSink) -> Result<(), String> + 'a>;
+        let mut comps: Vec<(String, W)> = vec![];
+        comps.push((format!("{what} (whole stream)"), Box::new(move |u| s.write(u).map_err(out_err))));
+        for k in 0..s.frame_count() {
+            let f = s.frame(k).unwrap();
+            comps.push((format!("{what} frame {k}"), Box::new(move |u| f.write(u).map_err(out_err))));
+            if !thorough && k > 0 {
+                continue;
+            }
+            comps.push((format!("{what} frame {k} header"), Box::new(move |u| f.header().write(u).map_err(out_err))));
+            for c in 0..f.subframe_count() {
+                let sf = f.subframe(c).unwrap();
+                comps.push((format!("{what} frame {k} subframe {c}"), Box::new(move |u| sf.write(u).map_err(out_err))));
+            }
+        }
+        comps.push((format!("{what} stream info"), Box::new(move |u| s.stream_info().write(u).map_err(out_err))));
+        for (k, (name, w)) in comps.iter().enumerate() {
+            // fault-free reference through the same kind of sink
+            let mut full = UserSink::new(None, false);
+            if catch_unwind(AssertUnwindSafe(|| w(&mut full))).map_or(true, |r| r.is_err()) {
+                continue;
+            }
+            let nops = full.ncalls;
+            let id = format!("f-{ci}-{k}");
+            let mut lines = vec![json!({"ev": "comp", "id": id, "what": name, "nops": nops, "nbits": full.bits.len(), "bytes": full.bytes()})];
+            // every k up to nops + 1; long writes are strided in the quick tier
+            let stride = if thorough || nops <= 400 { 1 } else { nops / 400 + 1 };
+            let mut ks: Vec<usize> = (0..nops).step_by(stride).collect();
+            ks.extend([nops.saturating_sub(1), nops, nops + 1]);
+            ks.sort_unstable();
+            ks.dedup();
+            for kk in ks {
+                let (outcome, nbits, bytes) = try_write(kk, w.as_ref());
+                outcomes.insert(outcome.clone());
+                lines.push(json!({"ev": "try", "k": kk, "outcome": outcome, "nbits": nbits, "bytes": bytes}));
+                ntries += 1;
+            }
+            lines.push(json!({"ev": "fin"}));
+            classes.insert(format!("{}/{}", name.split(' ').last().unwrap_or(""), if what.contains("precomputed") { "pre" } else { "plain" }));
+            if samples.len() < 2 {
+                samples.push(json!({"component": name, "nops": nops, "tries": lines.len() - 2}));
+            }
+            let cost: u64 = lines.len() as u64 * (full.bits.len() as u64 / 8 + 20);
+            sh.push(cost, lines);
+            ncomp += 1;
+        }
+    }
+    let files = sh.write(shards);
+    println!(
+        "{}",
+        json!({"components": ncomp, "tries": ntries, "outcomes": outcomes, "classes": classes.len(), "samples": samples,
+               "files": files.iter().map(|p| p.to_string_lossy().to_string()).collect::<Vec<_>>()})
+    );
+}
